@@ -7,12 +7,12 @@ structure Cfg where
 
 def dispatch (cfg : Cfg) (b : Block) : String :=
   match b.kind with
-  | "gops" => (runGops b cfg.fixedReverse).line b.kind b.id
-  | "dij" => (runDij b).line b.kind b.id
-  | "dfs" => (runDfs b).line b.kind b.id
-  | "kahn" => (runKahn b).line b.kind b.id
-  | "scc" => (runScc b).line b.kind b.id
-  | "topo" => (runTopo b).line b.kind b.id
+  | "gops" => (runGops b cfg.fixedReverse).line b.kind b.id "C19"
+  | "dij" => (runDij b).line b.kind b.id "C18"
+  | "dfs" => (runDfs b).line b.kind b.id "C20"
+  | "kahn" => (runKahn b).line b.kind b.id "C20"
+  | "scc" => (runScc b).line b.kind b.id "C20"
+  | "topo" => (runTopo b).line b.kind b.id "C20"
   | k => s!"res {k} {b.id} conform=DIVERGE:unknown_kind prop=na"
 
 partial def readAll (h : IO.FS.Stream) (acc : Array String) : IO (Array String) := do
